@@ -25,6 +25,12 @@ package pcache
 //@   loop 1: invariant len(results) >= 1 && results[0].Provider == &rpi.provider.AddrInfo && results[0].Metadata == metadata && results[0].ContextID == ctxID
 //@   loop 2: invariant len(results) >= 1 && results[0].Provider == &rpi.provider.AddrInfo && results[0].Metadata == metadata && results[0].ContextID == ctxID
 //@   loop 2: invariant !override
+// both lists are walked to the end whenever they apply: the context-level list iff the record has an entry
+// for this context ID, the chain-level list iff that entry does not override it (only a record without any
+// extended-provider section returns early)
+//@   loop 1: exhaustive
+//@   loop 2: exhaustive
+//@   ensures-local result1 == nil && result0 != nil && rpi.provider.ExtendedProviders != nil ==> (ok ==> count("loop*1") >= 1) && (!override ==> count("loop*2") >= 1)
 //@   loop 1: iteration ghost did := false
 //@   loop 2: iteration ghost did := false
 //@   at call append#2: ghost did := true
